@@ -17,7 +17,9 @@ where
     S: Serializer,
 {
     use std::io::ErrorKind::*;
-    match *kind {
+    // Typed as u32 to match the reader: untyped literals default to i32, which encodings that
+    // distinguish signed from unsigned integers (e.g. bincode's varint) write differently.
+    let kind: u32 = match *kind {
         NotFound => 0,
         PermissionDenied => 1,
         ConnectionRefused => 2,
@@ -37,8 +39,8 @@ where
         Other => 16,
         UnexpectedEof => 17,
         _ => 16,
-    }
-    .serialize(serializer)
+    };
+    kind.serialize(serializer)
 }
 
 /// Deserializes [`io::ErrorKind`] from a `u32`.
